@@ -257,9 +257,16 @@ class World:
         if rt.faults.get(key):
             fault = rt.faults[key].pop(0)
         task.logger.info(f'tcv {key} gen{gen} begin')
+        rich_state = None
         if self.desc.get('_rich_records'):
             # records of different length per generation (a rewrite that does not truncate shows), a message from a helper thread of run()
             task.save_to_run_info({'tcv': key, 'gen': gen, 'seq': 0, 'pad': rich_pad(gen)})
+            # running totals: ONE defaultdict and ONE plain dict (holding a list) recorded now and again later, updated in between
+            import collections
+            rich_state = (collections.defaultdict(int), {'seen': [gen]})
+            rich_state[0]['n'] += 1
+            task.save_to_run_info(rich_state[0])
+            task.save_to_run_info(rich_state[1])
             import threading
             th = threading.Thread(target=lambda: task.logger.info(f'tcv {key} gen{gen} helper'))
             th.start()
@@ -302,6 +309,11 @@ class World:
                     inputs[label] = {'default': jsonable(i.get('default'))}
         term = {'t': key, 'p': params, 'i': inputs}
         payload = {'term': term, 'gen': gen}
+        if rich_state is not None:
+            rich_state[0]['n'] += 1
+            rich_state[1]['seen'].append(1)
+            task.save_to_run_info(rich_state[0])
+            task.save_to_run_info(rich_state[1])
         if self.desc.get('_shrinking') and kind not in ('generator', 'generator_lazy', 'inmemory', 'inmemory_empty'):
             # every later run of one computation returns a SHORTER value: leftovers of an earlier attempt that are not truncated show
             payload['pad'] = 'x' * (90, 40, 0)[min(gen, 2)]
@@ -756,6 +768,11 @@ def _dump(payload, path):
 
 
 LON_PARTS = 12
+
+
+def rich_records(key, gen):
+    """the records a run of generation `gen` adds in a world with _rich_records, in order"""
+    return [{'tcv': key, 'gen': gen, 'seq': 0, 'pad': rich_pad(gen)}, {'n': 1}, {'seen': [gen]}, {'n': 2}, {'seen': [gen, 1]}, {'tcv': key, 'gen': gen, 'seq': 1}]
 
 
 def rich_pad(gen):
